@@ -53,8 +53,19 @@ Upd == \/ /\ done + (IF pend.kind = "none" THEN 0 ELSE 1) <= MCUpdates
        \/ PublishCore /\ UNCHANGED <<pin, stage>>
        \/ UpdEndCore(TRUE) /\ UNCHANGED <<pin, stage>>
 
+\* management calls made at once: up to MCUpdates callers, serialised only by the hand-over rule of Inside(u)
+Called == (done - 1) + Cardinality(DOMAIN upq) + (IF pend.kind = "none" THEN 0 ELSE 1)
+UpdU == \E u \in 1..MCUpdates :
+          \/ /\ u = Called + 1          \* at most MCUpdates calls in all, numbered in the order they are made
+             /\ \E k \in {"full", "incr"} : UpdCallCore(u, k, RulesV(u + 1), <<>>) /\ UNCHANGED <<pin, stage>>
+          \/ PublishCoreU(u) /\ UNCHANGED <<pin, stage>>
+          \/ UpdEndCoreU(u, TRUE) /\ UNCHANGED <<pin, stage>>
+
 MCNext == \/ \E q \in Reqs : Arrive(q) \/ Pop(q) \/ RunStage(q) \/ Return(q)
           \/ Push \/ Upd
+MCNextU == \/ \E q \in Reqs : Arrive(q) \/ Pop(q) \/ RunStage(q) \/ Return(q)
+           \/ Push \/ UpdU
+MCSpecU == MCInit /\ [][MCNextU]_mcvars
 MCSpec == MCInit /\ [][MCNext]_mcvars
 MCFair == MCSpec /\ WF_mcvars(Push) /\ \A q \in Reqs : WF_mcvars(Pop(q) \/ RunStage(q) \/ Return(q))
 
@@ -62,6 +73,11 @@ MCFair == MCSpec /\ WF_mcvars(Push) /\ \A q \in Reqs : WF_mcvars(Pop(q) \/ RunSt
 OneVersion == \A q \in DOMAIN rq : (rq[q].st = "holding" /\ stage[q] = MCStages) => VersionOK(q)
 \* C16 on the model: between updates every instance carries the denoted set
 AgreeWhenIdle == pend.kind = "none" => \A i \in Insts : inst[i] = cur
+\* ... with concurrent callers: nothing called, in progress or awaiting its logged return
+AgreeWhenIdleU == (pend.kind = "none" /\ upq = <<>>) => \A i \in Insts : inst[i] = cur
+\* a completed update (its return still to be logged) has published everywhere: every instance carries a version
+\* that is at least as new as the oldest update still awaiting its return
+NoTornPublish == \A i, j \in Insts : (inst[i] # inst[j]) => pend.kind # "none"
 \* C17 liveness: every request that arrived returns
 AllReturn == \A q \in Reqs : (q \in DOMAIN rq) ~> (q \in DOMAIN rq /\ rq[q].st = "returned")
 =============================================================================
